@@ -1463,6 +1463,30 @@ type c19HiddenCase struct {
 	TsAbs   uint64 `json:"tsAbs,omitempty"`
 	TsNow   bool   `json:"tsNow,omitempty"`
 	TsDelta int64  `json:"tsDelta,omitempty"`
+	// stamped: the 4-byte header AS SENT (it is the first thing both sides absorb, so every tag and MAC of the request
+	// is computed over it): version byte = Version ^ VerXor (0: the protocol's version); certificates-length field =
+	// real length + LenDelta (mod 2^16; the hidden request has no reserved bytes, bytes 2..3 frame the message); with
+	// Pad and LenDelta > 0 the datagram is extended by LenDelta bytes so that it has the size its header announces.
+	VerXor   int  `json:"verXor,omitempty"`
+	LenDelta int  `json:"lenDelta,omitempty"`
+	Pad      bool `json:"pad,omitempty"`
+}
+
+// c19HdrMalformed: is the header of a harness-written request one that no request of this protocol carries?
+// handshake_spec.md, Client Request Message: type 0x18 | Protocol Version | Certs Len; transport/common.go: "Version is
+// the protocol version being used. Only one version is supported." A request that announces another version, or whose
+// length field does not describe the message that follows, is not a well-formed hidden-mode request - however
+// consistently its tags were computed.
+func c19HdrMalformed(c c19HiddenCase) (kind string) {
+	switch {
+	case c.VerXor&0xff != 0 && c.LenDelta&0xffff != 0:
+		return "unsupported-version+misframed"
+	case c.VerXor&0xff != 0:
+		return "unsupported-version"
+	case c.LenDelta&0xffff != 0:
+		return "misframed"
+	}
+	return ""
 }
 
 var c19DiscoverableNames = []string{"ClientHello", "ServerHello", "ClientAck", "ServerAuth", "ClientAuth"}
@@ -1475,7 +1499,7 @@ func c19HiddenNormalize(c *c19HiddenCase) string {
 		case "wrong-kem", "altered":
 			hit = true
 		case "honest", "delayed", "replayed-late", "future", "stamped":
-			hit = c.Target > 0
+			hit = c.Target > 0 || (c.Class == "stamped" && c.LenDelta&0xffff != 0)
 		case "junk":
 			hit = (c.Type < 0 || c.Type == int(MessageTypeClientRequestHidden)) && c.Len >= c19MinHiddenLen
 		}
@@ -1499,7 +1523,7 @@ func c19HiddenValid(c c19HiddenCase) bool {
 	case "honest", "delayed", "replayed-late", "future", "wrong-kem", "own-cookie-ack":
 		return true
 	case "stamped":
-		return c.Kind >= 0 && c.Kind <= 1
+		return c.Kind >= 0 && c.Kind <= 1 && c.VerXor >= 0 && c.VerXor <= 0xff && c.LenDelta > -0x10000 && c.LenDelta < 0x10000
 	case "altered":
 		return c.Kind >= 0 && c.Kind <= 2 && (c.Kind != 0 || c.Mask&0xff != 0) && (c.Kind != 2 || c.Len > 0)
 	case "junk", "session-unknown":
@@ -1573,6 +1597,12 @@ func c19MakeRequest(t *testing.T, aheadMs int64, cc ClientConfig) []byte {
 // except that the time stamp field carries ts instead of time.Now().Unix(). The self-test presents one stamped with
 // the server's own clock and requires the real server to answer it, so a drift of this copy is a machinery failure.
 func c19StampedRequest(cc ClientConfig, ts uint64) ([]byte, error) {
+	return c19StampedRequestHdr(cc, ts, Version, 0, false)
+}
+
+// c19StampedRequestHdr: the same, with the header's version byte and length field as given (length field = real length
+// of the encrypted certificates + lenDelta mod 2^16); the header is absorbed as it is sent.
+func c19StampedRequestHdr(cc ClientConfig, ts uint64, version byte, lenDelta int, pad bool) ([]byte, error) {
 	hs := new(HandshakeState)
 	hs.duplex.InitializeEmpty()
 	hs.dh = new(dhState)
@@ -1599,7 +1629,8 @@ func c19StampedRequest(cc ClientConfig, ts uint64) ([]byte, error) {
 	encCertsLen := EncryptedCertificatesLength(leaf, inter)
 	out := make([]byte, HeaderLen+KemKeyLen+KemCtLen+encCertsLen+MacLen+TimestampLen+MacLen)
 	b := out
-	b[0], b[1], b[2], b[3] = byte(MessageTypeClientRequestHidden), Version, byte(encCertsLen>>8), byte(encCertsLen)
+	lenField := (encCertsLen + lenDelta) & 0xffff
+	b[0], b[1], b[2], b[3] = byte(MessageTypeClientRequestHidden), version, byte(lenField>>8), byte(lenField)
 	hs.duplex.Absorb(b[:HeaderLen])
 	b = b[HeaderLen:]
 	eph, err := hs.kem.ephemeral.Public.MarshalBinary()
@@ -1629,6 +1660,9 @@ func c19StampedRequest(cc ClientConfig, ts uint64) ([]byte, error) {
 	hs.duplex.Encrypt(b, stamp[:])
 	b = b[TimestampLen:]
 	hs.duplex.Squeeze(b[:MacLen])
+	if pad && lenDelta > 0 {
+		out = append(out, vlib.Fill(ts^uint64(lenDelta), lenDelta)...)
+	}
 	return out, nil
 }
 
@@ -1904,17 +1938,24 @@ func c19Hidden(c c19HiddenCase, v *vlib.Verdict, future []byte) (mach string) {
 		if c.TsNow {
 			ts += uint64(now)
 		}
-		req, err := c19StampedRequest(c19HiddenClientConfig(c.Target, false), ts)
+		req, err := c19StampedRequestHdr(c19HiddenClientConfig(c.Target, false), ts, Version^byte(c.VerXor), c.LenDelta, c.Pad)
 		if err != nil {
 			return "stamped request: " + err.Error()
 		}
 		name := c19StampName(c)
+		malformed := c19HdrMalformed(c)
 		present := func(from *net.UDPAddr, step string) bool {
 			now := time.Now().Unix()
 			env.Net.Inject(from, vSrvAddr, req)
 			c19Settle()
 			fr := c19Freshness(ts, now)
 			what := fmt.Sprintf("a correctly keyed and MACed request (%s) whose time stamp field is %#016x = %s, server clock %d (%#x), window %d s", step, ts, name, now, now, HiddenModeTimestampExpiration)
+			if malformed != "" {
+				// not a well-formed request of this protocol, whatever its time stamp says
+				v.NonTrivial = true
+				v.Labelf("stamped:header-%s:stamp-%s:%s", malformed, fr, step)
+				return j.silent(malformed+"-request:stamped:"+step, fmt.Sprintf("%s, sent under the header % x (version byte %#x, protocol version %#x; length field = real length %+d, %d bytes) with every tag and MAC computed over that header", what, req[:HeaderLen], req[1], Version, c.LenDelta, len(req)))
+			}
 			switch fr {
 			case "stale", "future":
 				v.NonTrivial = true
@@ -2438,6 +2479,45 @@ func TestVerifC19HiddenSweep(t *testing.T) {
 			return
 		}
 	}
+	// the header of such a request as a dimension: every other version byte (neighbours of the protocol's version, the
+	// ends and the middle of the byte, each single bit) and length fields that do not frame the message, the tags being
+	// computed over the header as sent; stamped inside and outside the window, replayed from another address
+	versions := []int{0, 2, 3, 0x7f, 0x80, 0x81, 0xfe, 0xff, 5, 9, 0x11, 0x21, 0x41}
+	for _, ver := range versions {
+		for _, d := range []int64{0, -1, -5, -7, 6} {
+			if d != 0 && !th && ver != 0 && ver != 2 && ver != 0xff {
+				continue
+			}
+			for _, live := range both {
+				if live && d != 0 {
+					continue
+				}
+				for _, src := range []int{0, 2} {
+					if !emit(c19HiddenCase{Certs: 1, Live: live, Class: "stamped", Src: src, TsNow: true, TsDelta: d, VerXor: ver ^ int(Version), DelayMs: 2000, Kind: 1}) {
+						return
+					}
+				}
+			}
+			if !emit(c19HiddenCase{Certs: 2, Target: 1, Class: "stamped", TsNow: true, TsDelta: d, VerXor: ver ^ int(Version)}) {
+				return
+			}
+		}
+	}
+	encL := L - c19MinHiddenLen // length of the encrypted certificates of an honest request
+	for _, ld := range []int{-1, 1, -2, 16, -16, 255, 256, -256, 0x7fff, 0x8000, 0xffff, -encL, 1 - encL} {
+		for _, pad := range both {
+			if pad && (ld <= 0 || ld > 2000) {
+				continue
+			}
+			for _, ver := range []int{int(Version), 0} {
+				for _, certs := range []int{1, 2} {
+					if !emit(c19HiddenCase{Certs: certs, Class: "stamped", Src: 2, TsNow: true, LenDelta: ld, Pad: pad, VerXor: ver ^ int(Version), DelayMs: 1000}) {
+						return
+					}
+				}
+			}
+		}
+	}
 	// accepted requests (stamped inside the window) replayed from the same / another address at the delays of the replayed-late class
 	for _, d := range []int64{0, -1, -4, -5} {
 		for _, delay := range delays {
@@ -2451,7 +2531,7 @@ func TestVerifC19HiddenSweep(t *testing.T) {
 			}
 		}
 	}
-	rec.Extra("enumerated", "honest requests per certificate; the five discoverable messages (each / all) x source x live session; acknowledgement under the server's own cookie key; junk: 17 first bytes x 20 lengths (+ hidden-request-shaped); session datagrams unknown/live id x 4 types x 11 lengths, replayed and altered authentic datagrams; wrong KEM key; valid request xor (quick: every 16th offset + all field edges, thorough: every offset) / truncated / extended; delayed and replayed-late at 12 delays from 0 to 1 h; future-stamped at 7 offsets up to 1 year; harness-written requests with a chosen 64-bit time stamp: clock +/- {0,1,4,5,6,7,3600} s, 0, 1, 2^31(-1), 2^32(-1), 2^62, 2^63-1, 2^63, 2^63+1, 2^64-2, 2^64-1, clock +/- 2^b (b in 8,16,31,32,33,48,62,63) with offsets -6..+6, each replayed 7 s later from another address; requests stamped clock-{0,1,4,5} replayed at the 11 delays from the same / another address")
+	rec.Extra("enumerated", "honest requests per certificate; the five discoverable messages (each / all) x source x live session; acknowledgement under the server's own cookie key; junk: 17 first bytes x 20 lengths (+ hidden-request-shaped); session datagrams unknown/live id x 4 types x 11 lengths, replayed and altered authentic datagrams; wrong KEM key; valid request xor (quick: every 16th offset + all field edges, thorough: every offset) / truncated / extended; delayed and replayed-late at 12 delays from 0 to 1 h; future-stamped at 7 offsets up to 1 year; harness-written requests with a chosen 64-bit time stamp: clock +/- {0,1,4,5,6,7,3600} s, 0, 1, 2^31(-1), 2^32(-1), 2^62, 2^63-1, 2^63, 2^63+1, 2^64-2, 2^64-1, clock +/- 2^b (b in 8,16,31,32,33,48,62,63) with offsets -6..+6, each replayed 7 s later from another address; harness-written requests under another header (tags over the header as sent): version byte {0,2,3,5,9,0x11,0x21,0x41,0x7f,0x80,0x81,0xfe,0xff} x stamp clock+{0,-1,-5,-7,6} x source x 1/2 certificates, length field off by {+-1,-2,+-16,255,+-256,0x7fff,0x8000,0xffff,...} with and without padding to the announced size; requests stamped clock-{0,1,4,5} replayed at the 11 delays from the same / another address")
 	rec.Extra("honest_request_bytes", L)
 }
 
@@ -2546,6 +2626,25 @@ func c19HiddenGen(L int) func(t *rapid.T) c19HiddenCase {
 			if rapid.Bool().Draw(t, "stampReplayed") {
 				c.DelayMs = delay()
 				c.Kind = rapid.IntRange(0, 1).Draw(t, "replayFrom")
+			}
+			// the header as sent: one time in three not the protocol's
+			switch rapid.IntRange(0, 8).Draw(t, "header") {
+			case 0:
+				c.VerXor = int(Version) ^ rapid.SampledFrom([]int{0, 0, 2, 3, 0x7f, 0x80, 0xfe, 0xff}).Draw(t, "version")
+			case 1:
+				c.VerXor = rapid.IntRange(1, 255).Draw(t, "versionXor")
+			case 2:
+				c.LenDelta = rapid.SampledFrom([]int{-1, 1, -2, 2, 16, 255, 256, -256, 0x8000, 0xffff, rapid.IntRange(-0xffff, 0xffff).Draw(t, "lenDeltaAny")}).Draw(t, "lenDelta")
+				c.Pad = c.LenDelta > 0 && c.LenDelta <= 2000 && rapid.Bool().Draw(t, "pad")
+				if rapid.IntRange(0, 3).Draw(t, "alsoVersion") == 0 {
+					c.VerXor = rapid.IntRange(1, 255).Draw(t, "versionXor")
+				}
+			}
+			if c.VerXor != 0 || c.LenDelta != 0 {
+				// malformed requests matter most when everything else about them is acceptable
+				if rapid.IntRange(0, 2).Draw(t, "headerFreshStamp") > 0 {
+					c.TsAbs, c.TsNow, c.TsDelta = 0, true, -int64(rapid.IntRange(0, int(HiddenModeTimestampExpiration)).Draw(t, "freshBy"))
+				}
 			}
 		}
 		return c
